@@ -10,6 +10,7 @@ CONSTANTS
   Pass2Cancel = "flag"
   Outermost = "coded"
   PropagateDespiteCycle = FALSE
+  Pass2ClearsDeps = FALSE
 SPECIFICATION Spec
 CHECK_DEADLOCK FALSE
 INVARIANTS CanonIffBisim
